@@ -31,7 +31,8 @@ import SimplicityModel.Prune
 import SimplicityModel.PruneTrace
 import SimplicityModel.PruneRetypeThm
 import SimplicityModel.PruneAntiDos
-import SimplicityModel.PruneIdem
+import SimplicityModel.PruneThms
+import SimplicityModel.PrunePipelineThm
 
 namespace Props.C08
 open BM4 Prog
@@ -165,7 +166,8 @@ theorem eval_prune_retyping (jt : JetTypes) (p : Plan) (wit : Nat → Option (Li
     (hlt : ∀ j, mask j = true → j < p.size)
     (hclosed : ∀ j nd', mask j = true → (prunePlan S ids cmf p)[j]? = some nd' →
       ∀ c ∈ nd'.children, mask c = true)
-    (hwit : ∀ j, mask j = true → p[j]? = some .witness → wit' j = pruneWit wit arr a1 j)
+    (hwit : ∀ j bits, mask j = true → p[j]? = some .witness → pruneWit wit arr a1 j = some bits →
+      wit' j = some bits)
     (f i : Nat) (hmi : mask i = true) (x : Σ a b, Term a b)
     (hx : elabNode { plan := p, arrows := arr, wit := wit, cmr := cm, jets := jets } f i = some x)
     (v o : Val) (tr : Trace) (hv : HasTy v x.1)
@@ -199,8 +201,8 @@ theorem eval_prune_retyping_reachable (jt : JetTypes) (p : Plan) (wit : Nat → 
     (hrun : evalT x.2.2 (labOf p ids f (p.size - 1)) v = .ok (o, tr))
     (ha1 : inferM jt (prunePlan tr.sides ids cmf p)
       (fun j => (reachable (prunePlan tr.sides ids cmf p)).getD j false) prog = .ok a1)
-    (hwit : ∀ j, (reachable (prunePlan tr.sides ids cmf p)).getD j false = true → p[j]? = some .witness →
-      wit' j = pruneWit wit arr a1 j) :
+    (hwit : ∀ j bits, (reachable (prunePlan tr.sides ids cmf p)).getD j false = true → p[j]? = some .witness →
+      pruneWit wit arr a1 j = some bits → wit' j = some bits) :
     ∃ (t' : Term (a1.getD (p.size - 1) (.one, .one)).1 (a1.getD (p.size - 1) (.one, .one)).2),
       elabNode { plan := prunePlan tr.sides ids cmf p, arrows := a1, wit := wit', cmr := cm, jets := jets } f
         (p.size - 1) = some ⟨_, _, t'⟩ ∧
@@ -289,7 +291,8 @@ theorem antiDoS_plan (jt : JetTypes) (p : Plan) (wit : Nat → Option (List Bool
     (hlt : ∀ j, mask j = true → j < p.size)
     (hclosed : ∀ j nd', mask j = true → (prunePlan tr.sides ids cmf p)[j]? = some nd' →
       ∀ c ∈ nd'.children, mask c = true)
-    (hwit : ∀ j, mask j = true → p[j]? = some .witness → wit' j = pruneWit wit arr a1 j)
+    (hwit : ∀ j bits, mask j = true → p[j]? = some .witness → pruneWit wit arr a1 j = some bits →
+      wit' j = some bits)
     (hmi : mask i = true)
     (hreach : ∀ j, mask j = true → Reach (prunePlan tr.sides ids cmf p) i j)
     (hinj : ∀ j k, j < p.size → k < p.size → ids j = ids k → j = k) :
@@ -300,24 +303,8 @@ theorem antiDoS_plan (jt : JetTypes) (p : Plan) (wit : Nat → Option (List Bool
         = .ok (pr (a1.getD i (.one, .one)).2 o, tr2) ∧
       ∀ j, mask j = true → ids' j ∈ tr2.nodes ∧
         ∀ a b, (prunePlan tr.sides ids cmf p)[j]? = some (.case a b) →
-          (ids' j, false) ∈ tr2.sides ∧ (ids' j, true) ∈ tr2.sides := by
-  obtain ⟨t', trI, h1, h2, hI, h3, _⟩ := eval_retyped_prune jt p wit cm jets tr.sides ids ids' cmf mask prog wit'
-    hwf harr ha1 hlt hclosed hwit f i hmi x hx v o tr hv hrun (fun _ hs => hs)
-  subst h2
-  refine ⟨t', trI.map ids', h1, h3, ?_⟩
-  have hran : RanP p trI := elabNode_ran _ f i x hx v o trI hI
-  have hroot : i ∈ trI.nodes := child_mem x.2.2 p f i v o trI hI
-  have hS : ∀ j s, (ids j, s) ∈ (trI.map ids).sides ↔ ∃ k, (k, s) ∈ trI.sides ∧ ids k = ids j := by
-    intro j s
-    simp only [Trace.map, List.mem_map, Prod.mk.injEq, Prod.exists]
-    constructor
-    · rintro ⟨k, s', hk, e1, rfl⟩; exact ⟨k, hk, e1⟩
-    · rintro ⟨k, hk, e1⟩; exact ⟨k, s, hk, e1, rfl⟩
-  intro j mj
-  have hj := reach_executed (trI.map ids).sides ids cmf p trI i hran hroot hS hinj j (hreach j mj)
-  refine ⟨Trace.mem_map_nodes hj, fun a b hc => ?_⟩
-  obtain ⟨_, hl, hr⟩ := kept_case_both (trI.map ids).sides ids cmf p trI hran hS hinj j hj a b hc
-  exact ⟨Trace.mem_map_sides hl, Trace.mem_map_sides hr⟩
+          (ids' j, false) ∈ tr2.sides ∧ (ids' j, true) ∈ tr2.sides :=
+  Prog.antiDoS_plan jt p wit cm jets ids ids' cmf mask prog wit' hwf harr f i x hx v o tr hv hrun ha1 hlt hclosed hwit hmi hreach hinj
 
 /-- **Anti-DoS, as the driver evaluates it**: the root of a non-empty plan, the `reachable` nodes
 of the pruned plan, any labelling `ids'` of the second run: `antiDosOK` (the function behind the
@@ -333,41 +320,16 @@ theorem antiDoS_driver (jt : JetTypes) (p : Plan) (wit : Nat → Option (List Bo
     (hrun : evalT x.2.2 (labOf p ids f (p.size - 1)) v = .ok (o, tr))
     (ha1 : inferM jt (prunePlan tr.sides ids cmf p)
       (fun j => (reachable (prunePlan tr.sides ids cmf p)).getD j false) prog = .ok a1)
-    (hwit : ∀ j, (reachable (prunePlan tr.sides ids cmf p)).getD j false = true → p[j]? = some .witness →
-      wit' j = pruneWit wit arr a1 j)
+    (hwit : ∀ j bits, (reachable (prunePlan tr.sides ids cmf p)).getD j false = true → p[j]? = some .witness →
+      pruneWit wit arr a1 j = some bits → wit' j = some bits)
     (hinj : ∀ j k, j < p.size → k < p.size → ids j = ids k → j = k) :
     ∃ (t' : Term (a1.getD (p.size - 1) (.one, .one)).1 (a1.getD (p.size - 1) (.one, .one)).2) (tr2 : Trace),
       elabNode { plan := prunePlan tr.sides ids cmf p, arrows := a1, wit := wit', cmr := cm, jets := jets } f
         (p.size - 1) = some ⟨_, _, t'⟩ ∧
       evalT t' (labOf (prunePlan tr.sides ids cmf p) ids' f (p.size - 1))
         (pr (a1.getD (p.size - 1) (.one, .one)).1 v) = .ok (pr (a1.getD (p.size - 1) (.one, .one)).2 o, tr2) ∧
-      antiDosOK (prunePlan tr.sides ids cmf p) (reachable (prunePlan tr.sides ids cmf p)) ids' tr2 = true := by
-  have hwf1 := wf_prunePlan tr.sides ids cmf p hwf
-  have hsz := prunePlan_size tr.sides ids cmf p
-  obtain ⟨t', tr2, h1, h2, h3⟩ := antiDoS_plan jt p wit cm jets ids ids' cmf _ prog wit' hwf harr f (p.size - 1)
-    x hx v o tr hv hrun ha1
-    (fun j hj => by have := reachable_lt _ hj; rwa [hsz] at this)
-    (fun j nd' hj hnd' => reachable_closed _ hwf1 hj hnd')
-    hwit
-    (by have := reachable_root (prunePlan tr.sides ids cmf p) (by rw [hsz]; exact hp); rwa [hsz] at this)
-    (fun j hj => by have := reachable_sound _ hj; rwa [hsz] at this)
-    hinj
-  refine ⟨t', tr2, h1, h2, ?_⟩
-  simp only [antiDosOK, List.all_eq_true, List.mem_range, Bool.or_eq_true, Bool.not_eq_true',
-    Bool.and_eq_true, List.contains_iff_mem]
-  intro j hj
-  cases hm : (reachable (prunePlan tr.sides ids cmf p)).getD j false with
-  | false => exact .inl rfl
-  | true =>
-    right
-    obtain ⟨hn, hc⟩ := h3 j hm
-    refine ⟨hn, ?_⟩
-    have hnd : (prunePlan tr.sides ids cmf p)[j]? = some (prunePlan tr.sides ids cmf p)[j] := by simp [hj]
-    rw [getD_children hnd]
-    generalize (prunePlan tr.sides ids cmf p)[j] = nd at hnd
-    cases nd with
-    | case a b => exact .inr (hc a b hnd)
-    | _ => exact .inl rfl
+      antiDosOK (prunePlan tr.sides ids cmf p) (reachable (prunePlan tr.sides ids cmf p)) ids' tr2 = true :=
+  Prog.antiDoS_driver jt p wit cm jets ids ids' cmf prog wit' hwf hp harr f x hx v o tr hv hrun ha1 hwit hinj
 
 /-- **Idempotence, plan level, types included.**  Under the hypotheses of `antiDoS_plan`, prune
 the pruned program again *for the same run*: take the record `tr2` of the re-typed pruned program
@@ -389,7 +351,8 @@ theorem prune_idempotent_plan (jt : JetTypes) (p : Plan) (wit : Nat → Option (
     (hlt : ∀ j, mask j = true → j < p.size)
     (hclosed : ∀ j nd', mask j = true → (prunePlan tr.sides ids cmf p)[j]? = some nd' →
       ∀ c ∈ nd'.children, mask c = true)
-    (hwit : ∀ j, mask j = true → p[j]? = some .witness → wit' j = pruneWit wit arr a1 j)
+    (hwit : ∀ j bits, mask j = true → p[j]? = some .witness → pruneWit wit arr a1 j = some bits →
+      wit' j = some bits)
     (hmi : mask i = true)
     (hreach : ∀ j, mask j = true → Reach (prunePlan tr.sides ids cmf p) i j)
     (hinj : ∀ j k, j < p.size → k < p.size → ids j = ids k → j = k) :
@@ -401,52 +364,36 @@ theorem prune_idempotent_plan (jt : JetTypes) (p : Plan) (wit : Nat → Option (
       (∀ j, mask j = true →
         (prunePlan tr2.sides ids' cmf' (prunePlan tr.sides ids cmf p))[j]? = (prunePlan tr.sides ids cmf p)[j]?) ∧
       inferM jt (prunePlan tr2.sides ids' cmf' (prunePlan tr.sides ids cmf p)) mask prog = .ok a1 ∧
-      (∀ j bits, mask j = true → p[j]? = some .witness → wit' j = some bits →
-        pruneWit wit' a1 a1 j = some bits) := by
-  obtain ⟨t', tr2, h1, h2, h3⟩ := antiDoS_plan jt p wit cm jets ids ids' cmf mask prog wit' hwf harr f i x hx
-    v o tr hv hrun ha1 hlt hclosed hwit hmi hreach hinj
-  have hfix : ∀ j nd, (prunePlan tr.sides ids cmf p)[j]? = some nd → mask j = true →
-      pruneNode tr2.sides (ids' j) cmf' nd = nd := by
-    intro j nd hnd mj
-    apply pruneNode_fix
-    intro a b hab
-    subst hab
-    have := (h3 j mj).2 a b hnd
-    exact ⟨fun _ => this.2, fun _ => this.1⟩
-  refine ⟨t', tr2, h1, h2, ?_, ?_, ?_⟩
-  · intro j mj
-    rw [prunePlan_getElem?]
-    cases hnd : (prunePlan tr.sides ids cmf p)[j]? with
-    | none => rfl
-    | some nd => simp only [Option.map_some, hfix j nd hnd mj]
-  · rw [inferM_prunePlan_agree jt mask tr2.sides ids' cmf' _ prog hfix]
-    exact ha1
-  · intro j bits mj hnd hb
-    have hb' := hb
-    rw [hwit j mj hnd] at hb'
-    simp only [pruneWit, Option.bind_eq_bind, Option.bind_eq_some_iff, Option.pure_def, Option.some.injEq] at hb'
-    obtain ⟨bits0, _, v0, _, w, hw, rfl⟩ := hb'
-    exact pruneWit_self wit' a1 j w (pruneV_hasTy _ _ _ hw) hb
+      (∀ j bits, mask j = true → p[j]? = some .witness → pruneWit wit arr a1 j = some bits →
+        pruneWit wit' a1 a1 j = some bits) :=
+  Prog.prune_idempotent_plan jt p wit cm jets ids ids' cmf cmf' mask prog wit' hwf harr f i x hx v o tr hv hrun ha1 hlt hclosed hwit hmi hreach hinj
 
 /-- … and the reachable set does not change either: with the driver's selection (`reachable`),
 the twice-pruned plan has the reachable set of the pruned plan, so the second `inferM` runs on the
 same selection. -/
 theorem prune_idempotent_reachable (p1 : Plan) (S2 : List (Nat × Bool)) (ids' cmf' : Nat → Nat)
     (h : ∀ j, (reachable p1).getD j false = true → (prunePlan S2 ids' cmf' p1)[j]? = p1[j]?) (hwf : wf p1 = true) :
-    reachable (prunePlan S2 ids' cmf' p1) = reachable p1 := by
-  have hsz := prunePlan_size S2 ids' cmf' p1
-  refine reachable_congr p1 _ hsz ?_
-  intro j hj
-  by_cases hp : 0 < p1.size
-  · have hr : (reachable p1).getD j false = true := by
-      induction hj with
-      | root => exact reachable_root p1 hp
-      | child _ hnd hc ih => exact reachable_closed p1 hwf ih hnd _ hc
-    simp only [Array.getD_eq_getD_getElem?]
-    rw [h j hr]
-  · have h0 : p1.size = 0 := by omega
-    have h1 : (prunePlan S2 ids' cmf' p1).size = 0 := by rw [hsz, h0]
-    simp [Array.getD_eq_getD_getElem?, Array.getElem?_eq_none, h0, h1]
+    reachable (prunePlan S2 ids' cmf' p1) = reachable p1 :=
+  Prog.prune_idempotent_reachable p1 S2 ids' cmf' h hwf
+
+/-- **End to end, on the two functions behind the driver's `prune` verb.**  If `prunePipeline`
+(types, roots, identity roots, elaboration, tracked run, `prune_case` table, reachability,
+re-inference, witness pruning) answers `ok q`, the identity roots it labelled the first run with are
+pairwise distinct on the plan, and the pruned plan can be annotated with identity roots, then
+`q.antiDos` — which elaborates the pruned plan with its **re-inferred** arrows and pruned witness
+bits, runs it and evaluates the anti-DoS conditions at identity-root granularity — answers `"ok"`:
+the re-typed pruned program elaborates, its run does not fail, every reachable node is executed and
+both sides of every remaining case are taken.  (No concrete instance is given in Lean because the
+hypotheses contain SHA-256 computations (`cmrs`, `ihrs`); every `ok … antidos=ok` line of the
+correspondence run is an instance.) -/
+theorem pipeline_antiDos (jetTy : JetTypes) (jetCmr : String → Option Nat) (jetSem : JetSem)
+    (wit : Nat → Option (List Bool)) (p : Plan) (q : Pruned)
+    (h : prunePipeline jetTy jetCmr jetSem wit p = .ok q)
+    (hinj : ∀ arrows an, inferM jetTy p (fun _ => true) true = .ok arrows → ihrs jetCmr p arrows wit = some an →
+      ∀ j k, j < p.size → k < p.size → (an.getD j (0, 0)).2 = (an.getD k (0, 0)).2 → j = k)
+    (hann : ihrs jetCmr q.plan q.codeArrows (witOfList q.wits wit) ≠ none) :
+    q.antiDos jetCmr jetSem wit = "ok" :=
+  Prog.pipeline_antiDos jetTy jetCmr jetSem wit p q h hinj hann
 
 /-! ## (T) typed terms: the `Pruner` step -/
 
